@@ -132,6 +132,15 @@ fn cases(f: &mut dyn FnMut(Case)) {
                     d.marks.push(Expect { role: "previous", offset: first_off, len: 3 });
                     f(mk("duplicate-definition", d, true, None));
                 }
+                // K4b duplicate shell-specific definition for the target
+                {
+                    let mut d = Doc::new();
+                    d.p(pre).p("cmd <X> ").p(or_a(head)).p(";\n");
+                    let first_off = d.s.len();
+                    d.p("<X@bash> = {{{ one }}};").p(sep).mark("duplicate", "<X@bash>").p(" = {{{ two }}};\n");
+                    d.marks.push(Expect { role: "previous", offset: first_off, len: 8 });
+                    f(mk("duplicate-specialization", d, true, None));
+                }
                 // K5 unknown shell
                 {
                     let mut d = Doc::new();
@@ -233,7 +242,7 @@ fn error_spans(e: &complgen::Error) -> Vec<HumanSpan> {
 
 fn expected_kind(kind: &str) -> &'static str {
     match kind {
-        "duplicate-definition" => "DuplicateNonterminalDefinition",
+        "duplicate-definition" | "duplicate-specialization" => "DuplicateNonterminalDefinition",
         "unknown-shell" => "UnknownShell",
         "varying-command-names" => "VaryingCommandNames",
         "invalid-command-name" => "InvalidCommandName",
@@ -448,7 +457,7 @@ pub fn run(tier: Tier) -> Report {
     rep.cov(
         "rule",
         J::s(format!(
-            "exhaustive placement: 13 diagnostic kinds (undefined, unused, unused specialization, duplicate + previous definition, unknown shell, varying command names, invalid command name, spaces inside a word (left/right/reference site, also with the left literal carrying escapes), non-command specialization, placeholder + follower, cycle, parse error) x {} preceding-line menus x {} same-statement prefixes (every backslash escape, dots, described literal, word, repetition) x {} separators (spaces, tab, newline + indent, comment, blank line). Level L: all placements, spans of the returned Error / warning maps vs the planted byte offset (line, start column, end column). Level B: {} (stderr `path:L:C:` prefixes in print order and the source line shown). distinct = distinct input texts.",
+            "exhaustive placement: 14 diagnostic kinds (undefined, unused, unused specialization, duplicate + previous definition (plain and shell-specific), unknown shell, varying command names, invalid command name, spaces inside a word (left/right/reference site, also with the left literal carrying escapes), non-command specialization, placeholder + follower, cycle, parse error) x {} preceding-line menus x {} same-statement prefixes (every backslash escape, dots, described literal, word, repetition) x {} separators (spaces, tab, newline + indent, comment, blank line). Level L: all placements, spans of the returned Error / warning maps vs the planted byte offset (line, start column, end column). Level B: {} (stderr `path:L:C:` prefixes in print order and the source line shown). distinct = distinct input texts.",
             PRE.len(),
             HEAD.len(),
             SEP.len(),
